@@ -27,7 +27,8 @@ Record book := mkBook {
 Inductive case03 :=
 | CTable (observed : list nbr)
 | CRef (cluster_scoped : list (string * string)) (nonstr : list string)
-       (before : list resource) (cls : oclass) (after : list node)
+       (before : list resource) (cls : oclass) (after : list (option node))
+         (* None = the document is unchanged *)
 | CBook (cluster_scoped : list (string * string)) (nonstr : list string)
         (l : layer) (hashes : list string) (cls : oclass) (expected : list book).
 
@@ -82,6 +83,15 @@ Definition run_book (csl : list (string * string)) (nonstr : list string) (l : l
   build_names (cs_of csl) (fun s => str_in s nonstr)
               gen_name_prefix_fs gen_name_suffix_fs gen_namespace_fs gen_prefix_skip gen_suffix_skip l hs.
 
+(* observed documents, given relative to the input documents *)
+Fixpoint after_eqb (before model : list node) (obs : list (option node)) : bool :=
+  match before, model, obs with
+  | [], [], [] => true
+  | b :: before', m :: model', o :: obs' =>
+      node_eqb m (match o with Some x => x | None => b end) && after_eqb before' model' obs'
+  | _, _, _ => false
+  end.
+
 Definition agree03 (c : case03) : bool :=
   match c with
   | CTable obs =>
@@ -91,7 +101,7 @@ Definition agree03 (c : case03) : bool :=
       end
   | CRef csl ns m cls after =>
       match run_ref csl ns m with
-      | Ok m' => oclass_eqb cls COk && list_eqb node_eqb (map r_node m') after
+      | Ok m' => oclass_eqb cls COk && after_eqb (map r_node m) (map r_node m') after
       | r => oclass_eqb cls (class_of r)
       end
   | CBook csl ns l hs cls expected =>
